@@ -32,7 +32,7 @@ Definition ext_universal : list (Z * fmt) := [
   (9,     FOpt (FVarList 1 1));                                           (* ClientCertTypeExtension *)
   (10,    FOpt (FVarList 2 2));                                           (* SupportedGroupsExtension *)
   (11,    FOpt (FVarList 1 1));                                           (* ECPointFormatsExtension *)
-  (12,    FVar 1);                                                        (* SRPExtension :1040 -- intended framing *)
+  (12,    FVar 1);                                                        (* SRPExtension :1040 *)
   (13,    FOpt (FVarTuples 1 2 2));                                       (* SignatureAlgorithmsExtension *)
   (16,    FList 2 (FVar 1));                                              (* ALPNExtension :1640 *)
   (13172, FRep (FVar 1));                                                 (* NPNExtension :1120 *)
@@ -54,7 +54,7 @@ Definition ext_universal : list (Z * fmt) := [
 (* _serverExtensions (:2249): ServerHello *)
 Definition ext_server_only : list (Z * fmt) := [
   (9,     FU 1);                                                          (* ServerCertTypeExtension (non-empty) *)
-  (62208, FSeq (FList 2 TACK) (FU 1));                                    (* TACKExtension :1260 -- intended framing *)
+  (62208, FSeq (FList 2 TACK) (FU 1));                                    (* TACKExtension :1260 *)
   (51,    FOpt KeyShareEntry);                                            (* ServerKeyShareExtension *)
   (43,    FSeq (FU 1) (FU 1));                                            (* SrvSupportedVersionsExtension *)
   (41,    FOpt (FU 2))                                                    (* SrvPreSharedKeyExtension *)
